@@ -130,18 +130,23 @@ def diagnose(w, conc, created, fr_ctx, m, ex, world_addrs, base_mism, cheat=None
     """which single known deviation (quirk) of the reference makes the mismatch disappear, if any"""
     from evm.cheats_ref import CheatStop
 
-    for q in QUIRKS:
-        if hasattr(cheat, "for_pair") or w.symbolic_storage:
-            return None
+    import itertools
+
+    if hasattr(cheat, "for_pair") or w.symbolic_storage:
+        return None
+    # single deviations first; then combinations: one execution may run into two known defects at once (e.g. MSIZE after a read
+    # *and* a value-bearing CALL in a static frame) - the mismatch is then named after the first of them, both being listed
+    combos = [(q,) for q in QUIRKS] + list(itertools.combinations(QUIRKS, 2)) + [tuple(QUIRKS)]
+    for combo in combos:
         try:
-            evm, world, fr = E_run_reference(w, conc, created, quirks=frozenset([q]), cheat=cheat, cheat_addrs=cheat_addrs)
+            evm, world, fr = E_run_reference(w, conc, created, quirks=frozenset(combo), cheat=cheat, cheat_addrs=cheat_addrs)
         except (Unsupported, StepLimit, CheatStop):
             continue
         mm = E.compare_frames(m, fr_ctx, fr)
         if not mm and fr.error is None:
             mm = E.final_state_mismatches(m, ex, world, world_addrs)
         if not mm:
-            return q
+            return combo[0]
     return None
 
 
